@@ -12,7 +12,7 @@ import numpy as np
 from ...FEM import MatrixType, _GroupElem
 from ...FEM._linalg import FeArray, Transpose, Det
 from ...Utilities import _types, _params
-from ...Utilities._cache import cache_computed_values
+from ...Utilities._cache import cache_computed_values, clear_cached_computed_values
 
 # ------------------------------------------------------------------------------
 # Functions for matrices
@@ -74,6 +74,9 @@ class HyperElasticState:
     @matrixType.setter
     def matrixType(self, value: Union[int, MatrixType]):
         self.__matrixType = value
+        # every memoised quantity was computed at the integration points of the previous matrix type
+        clear_cached_computed_values(self)
+        self.__dict__.pop("_block_grad_B_cache", None)  # memo set on the state by Operators.NonLinear
 
     def _GetDims(
         self,
